@@ -208,6 +208,13 @@ var c12Calls = []c12Call{
 	{"map with yielding Stringer elements", func() string {
 		return string(redact.Sprintf("%v", map[string]yieldStr{"k1": {"v1"}, "k2": {"v2"}}))
 	}},
+	// fields wider than any per-printer scratch array (a change may move such scratch memory to package scope)
+	{"wide integer fields", func() string {
+		return string(redact.Sprintf("%0100d|%#.80x|%70v|%-90o|%.70b|%#.66U", 123456789, 255, []int{7, 8}, 8, 5, 0x1F600))
+	}},
+	{"wide float, string and quote fields", func() string {
+		return string(redact.Sprintf("%0120.30f|%100s|%-100q|%.90e|%110x", 3.14159, "s", "q", 1e100, "hex"))
+	}},
 	{"slices, arrays, structs, pointers", func() string {
 		x := 5
 		return string(redact.Sprintf("%v|%v|%+v|%v|%v", []string{"a", "b"}, [2]bool{true, false}, embedT{structInner{1, 2}, "z"}, &structT{A: 1}, []interface{}{&x != nil, nil, 2.5}))
@@ -1011,7 +1018,7 @@ func c12EndStates(c *Ctx) {
 // scenarios: which calls run on which threads
 func c12Scenarios(tier string) [][][]int {
 	sel := []int{0, 8, 13, 14, 16, 17, 18, 19, 21, 26, 27, 28, 29, 34, 35, 36}
-	sel = append(sel, c12Idx("empty and nil maps"), c12Idx("map with yielding Stringer elements"))
+	sel = append(sel, c12Idx("empty and nil maps"), c12Idx("map with yielding Stringer elements"), c12Idx("wide integer fields"))
 	var sc [][][]int
 	for i, a := range sel {
 		for _, b := range sel[i:] {
